@@ -7,8 +7,8 @@ package governance
 
 // gGovCtx: what the governance handlers need from the context beyond action.ctxOK (built by app.context.Action /
 // NewProposalMasterStore; A-GOVCTX until ctxOK carries it): the three proposal stores are present, the five stage prefixes
-// of the proposal store differ, the fund store is aimed at a State, the in-memory option set is present, and the fee currency is OLT
-//@ ghost func gGovCtx(ctx *action.Context) bool = wfPS(ctx.ProposalMasterStore.Proposal) && ctx.ProposalMasterStore.ProposalFund != nil && ctx.ProposalMasterStore.ProposalFund.State != nil && ctx.ProposalMasterStore.ProposalVote != nil && ctx.ProposalMasterStore.Proposal.proposalOptions != nil && ctx.FeePool.feeOpt.FeeCurrency.Name == "OLT"
+// of the proposal store differ, it is aimed at a well-formed State, the fund store is aimed at a State, the in-memory option set is present, and the fee currency is OLT
+//@ ghost func gGovCtx(ctx *action.Context) bool = wfPS(ctx.ProposalMasterStore.Proposal) && wfState(ctx.ProposalMasterStore.Proposal.state) && ctx.ProposalMasterStore.ProposalFund != nil && ctx.ProposalMasterStore.ProposalFund.State != nil && ctx.ProposalMasterStore.ProposalVote != nil && ctx.ProposalMasterStore.Proposal.proposalOptions != nil && ctx.FeePool.feeOpt.FeeCurrency.Name == "OLT"
 
 // shorthands for the entry/exit record of proposal id in a stage of the context's proposal store
 //@ ghost func gaHas(ctx *action.Context, id governance.ProposalID) bool = propHas(ctx.ProposalMasterStore.Proposal, ctx.ProposalMasterStore.Proposal.prefixActive, id)
@@ -228,7 +228,9 @@ package governance
 //@   requires has(ctx.Currencies.nameMap, gCrMsg(tx.Data).InitialFunding.Currency)                                                    // C14.validated-facts
 //@   assumes gFundedInv(ctx, gCrMsg(tx.Data).ProposalID)                                                                               // A-STOREINV C14 store invariant (every body ensures it: C14.store-invariant)
 //@   ensures result0 ==> gFundedInv(ctx, gCrMsg(tx.Data).ProposalID)                                                                   // C14.store-invariant
-//@   ensures result0 ==> !old(gAnyHas(ctx, gCrMsg(tx.Data).ProposalID))           // C14.create-fresh-id
+// the id is new over ALL five stages (from the proved ProposalStore.Exists; like Exists, as long as the gas limit was not
+// reached while the five stage reads were made: past the limit a State read may miss the block overlay)
+//@   ensures result0 && !exhausted(ctx.ProposalMasterStore.Proposal.state.cache) ==> !old(gAnyHas(ctx, gCrMsg(tx.Data).ProposalID))   // C14.id-unique-over-stages
 //@   ensures result0 ==> gaHas(ctx, gCrMsg(tx.Data).ProposalID) && gaRec(ctx, gCrMsg(tx.Data).ProposalID).Status == stFunding() && gaRec(ctx, gCrMsg(tx.Data).ProposalID).Outcome == ocInProgress() && str(gaRec(ctx, gCrMsg(tx.Data).ProposalID).Proposer) == str(gCrMsg(tx.Data).Proposer)   // C14.create-starts-funding
 //@   ensures result0 ==> gaRec(ctx, gCrMsg(tx.Data).ProposalID).FundingDeadline > ctx.Header.Height && gaRec(ctx, gCrMsg(tx.Data).ProposalID).PassPercentage == optPass(ctx.GovernanceStore)[gCrMsg(tx.Data).ProposalType] && wrap64(gaRec(ctx, gCrMsg(tx.Data).ProposalID).VotingDeadline - gaRec(ctx, gCrMsg(tx.Data).ProposalID).FundingDeadline) == optVD(ctx.GovernanceStore)[gCrMsg(tx.Data).ProposalType]   // C14.create-deadlines
 //@   ensures result0 ==> gCrMsg(tx.Data).InitialFunding.Value >= 0 && gCrMsg(tx.Data).InitialFunding.Value < propGoal(ctx.ProposalMasterStore.Proposal, ctx.ProposalMasterStore.Proposal.prefixActive, gCrMsg(tx.Data).ProposalID)   // C14.create-initial-funding
